@@ -117,6 +117,10 @@ func c08Check(c c08Case) vfResult {
 				return r
 			}
 			r.LabelN["reader-after-other-limit"]++
+			if err := vfRoutes(doc, L, vfDetectAt(doc, L)); err != nil {
+				r.Err = fmt.Errorf("limit %d: %v; doc %s", L, err, vfQ(doc))
+				return r
+			}
 		}
 		m := vfDetectAt(doc, L)
 		if !c08IsJSONFamily(m) {
